@@ -135,42 +135,351 @@ theorem Image_stable {tr tr' : List (Ref × Ref)} (h : Extends tr tr') (G : Grap
   rintro ⟨sv, sp, h1, h2, h3⟩
   exact ⟨sv, sp, h1, h2, mapVal_stable h sp v h3⟩
 
+/-! ### the chain walk at the head of `CopyReference` -/
+
+/-- `a` is an indirect object whose value is a reference, and following such references leads
+    from `a` to `b` -/
+inductive Leads (G : Graph) : Ref → Ref → Prop where
+  | one {a b : Ref} : CPY.get G a true = .ok (.obj (.ref b.1 b.2)) → Leads G a b
+  | more {a c b : Ref} : CPY.get G a true = .ok (.obj (.ref c.1 c.2)) → Leads G c b → Leads G a b
+
+theorem Leads.trans {G : Graph} {a b c : Ref} (h1 : Leads G a b) (h2 : Leads G b c) : Leads G a c := by
+  induction h1 with
+  | one h => exact .more h h2
+  | more h _ ih => exact .more h (ih h2)
+
+theorem Leads.snoc {G : Graph} {a b c : Ref} (h1 : Leads G a b)
+    (h2 : CPY.get G b true = .ok (.obj (.ref c.1 c.2))) : Leads G a c := h1.trans (.one h2)
+
+def IsRef : Val → Prop
+  | .obj (.ref _ _) => True
+  | _ => False
+
+/-- what the walk knows about the links met so far -/
+structure WInv (G : Graph) (tr : List (Ref × Ref)) (r0 : Ref) (chain : List Ref) (cur : Ref) : Prop where
+  r0_mem : r0 ∈ chain
+  cur_mem : cur ∈ chain
+  nodup : chain.Nodup
+  fresh : ∀ k ∈ chain, assoc k tr = none
+  leads : ∀ k ∈ chain, k = cur ∨ Leads G k cur
+  next : ∀ k ∈ chain, k ≠ cur → ∃ x ∈ chain, CPY.get G k true = .ok (.obj (.ref x.1 x.2))
+
+/-- what the walk guarantees about its result -/
+def WOut (G : Graph) (tr : List (Ref × Ref)) (r0 : Ref) : Walk → Prop
+  | .fails e => e ≠ .fuel ∧ e ≠ .malformed
+  | .dead => True
+  | .known t c => c.Nodup ∧ (∀ k ∈ c, assoc k tr = none) ∧ r0 ∈ c ∧
+      ∃ x, assoc x tr = some t ∧ (∀ k ∈ c, Leads G k x) ∧
+        ∀ k ∈ c, ∃ y, CPY.get G k true = .ok (.obj (.ref y.1 y.2)) ∧ (y ∈ c ∨ y = x)
+  | .ends v c => c.Nodup ∧ (∀ k ∈ c, assoc k tr = none) ∧ r0 ∈ c ∧
+      ∃ e ∈ c, CPY.get G e true = .ok v ∧ ¬ IsRef v ∧ (∀ k ∈ c, k = e ∨ Leads G k e) ∧
+        ∀ k ∈ c, k ≠ e → ∃ y ∈ c, CPY.get G k true = .ok (.obj (.ref y.1 y.2))
+
+theorem get_err_cases {G : Graph} {r : Ref} {cs : Bool} {e : CErr} (h : CPY.get G r cs = .error e) :
+    e = .malformed ∨ e = .read := by
+  unfold CPY.get at h
+  split at h
+  · cases h
+  · split at h
+    · cases h; exact Or.inl rfl
+    · cases h; exact Or.inr rfl
+    · split at h <;> cases h
+      exact Or.inl rfl
+
+theorem walk_out (G : Graph) (tr : List (Ref × Ref)) (r0 : Ref) :
+    ∀ (d : Nat) (chain : List Ref) (cur : Ref), WInv G tr r0 chain cur →
+      WOut G tr r0 (walkChain G tr d chain cur) := by
+  intro d
+  induction d with
+  | zero =>
+    intro chain cur inv
+    unfold walkChain
+    split
+    · trivial
+    · next e hne he =>
+      rcases get_err_cases he with h | h
+      · exact absurd h (by intro h'; exact hne (by rw [h'] ))
+      · subst h; exact ⟨by simp, by simp⟩
+    · next n g hg =>
+      split
+      · next t ht =>
+        refine ⟨inv.nodup, inv.fresh, inv.r0_mem, (n, g), ht, ?_, ?_⟩
+        · intro k hk
+          rcases inv.leads k hk with e | e
+          · subst e; exact .one hg
+          · exact e.snoc hg
+        · intro k hk
+          by_cases hkc : k = cur
+          · subst hkc; exact ⟨(n, g), hg, Or.inr rfl⟩
+          · obtain ⟨x, hx, hgx⟩ := inv.next k hk hkc
+            exact ⟨x, hgx, Or.inl hx⟩
+      · split <;> trivial
+    · next v hne hg =>
+      refine ⟨inv.nodup, inv.fresh, inv.r0_mem, cur, inv.cur_mem, hg, ?_, inv.leads, inv.next⟩
+      intro hr
+      cases v with
+      | stream _ _ _ => exact hr
+      | obj o => cases o <;> first | exact hr | exact hne _ _ rfl
+  | succ d ih =>
+    intro chain cur inv
+    unfold walkChain
+    split
+    · trivial
+    · next e hne he =>
+      rcases get_err_cases he with h | h
+      · exact absurd h (by intro h'; exact hne (by rw [h'] ))
+      · subst h; exact ⟨by simp, by simp⟩
+    · next n g hg =>
+      split
+      · next t ht =>
+        refine ⟨inv.nodup, inv.fresh, inv.r0_mem, (n, g), ht, ?_, ?_⟩
+        · intro k hk
+          rcases inv.leads k hk with e | e
+          · subst e; exact .one hg
+          · exact e.snoc hg
+        · intro k hk
+          by_cases hkc : k = cur
+          · subst hkc; exact ⟨(n, g), hg, Or.inr rfl⟩
+          · obtain ⟨x, hx, hgx⟩ := inv.next k hk hkc
+            exact ⟨x, hgx, Or.inl hx⟩
+      · next hnone =>
+        split
+        · trivial
+        · next hnc =>
+          apply ih
+          have hnm : (n, g) ∉ chain := by simpa using hnc
+          refine ⟨?_, ?_, ?_, ?_, ?_, ?_⟩
+          · exact List.mem_append_left _ inv.r0_mem
+          · simp
+          · rw [List.nodup_append]
+            refine ⟨inv.nodup, by simp, ?_⟩
+            intro a ha b hb hab
+            simp only [List.mem_singleton] at hb
+            subst hab; subst hb; exact hnm ha
+          · intro k hk
+            rcases List.mem_append.mp hk with h | h
+            · exact inv.fresh k h
+            · simp only [List.mem_singleton] at h; subst h; exact hnone
+          · intro k hk
+            rcases List.mem_append.mp hk with h | h
+            · right
+              rcases inv.leads k h with e | e
+              · subst e; exact .one hg
+              · exact e.snoc hg
+            · simp only [List.mem_singleton] at h; exact Or.inl h
+          · intro k hk hne'
+            rcases List.mem_append.mp hk with h | h
+            · by_cases hkc : k = cur
+              · subst hkc; exact ⟨(n, g), by simp, hg⟩
+              · obtain ⟨x, hx, hgx⟩ := inv.next k h hkc
+                exact ⟨x, List.mem_append_left _ hx, hgx⟩
+            · simp only [List.mem_singleton] at h; exact absurd h hne'
+    · next v hne hg =>
+      refine ⟨inv.nodup, inv.fresh, inv.r0_mem, cur, inv.cur_mem, hg, ?_, inv.leads, inv.next⟩
+      intro hr
+      cases v with
+      | stream _ _ _ => exact hr
+      | obj o => cases o <;> first | exact hr | exact hne _ _ rfl
+
+/-- the walk sees what `Resolve` sees, as long as it meets no translated link -/
+def WRes (G : Graph) (d : Nat) (path : List Ref) (cur : Ref) : Walk → Prop
+  | .ends v _ => resolveLoop G true (d+1) path cur = .ok v
+  | .dead => resolveLoop G true (d+1) path cur = .error .malformed
+  | .fails e => resolveLoop G true (d+1) path cur = .error e
+  | .known _ _ => True
+
+theorem walk_resolve (G : Graph) (tr : List (Ref × Ref)) :
+    ∀ (d : Nat) (path : List Ref) (cur : Ref) (chain : List Ref),
+      (∀ x, x ∈ chain ↔ x ∈ cur :: path) → cur ∉ path →
+      WRes G d path cur (walkChain G tr d chain cur) := by
+  intro d
+  induction d with
+  | zero =>
+    intro path cur chain hmem hcur
+    have hc : path.contains cur = false := by simpa using hcur
+    unfold walkChain
+    split
+    · next he => simp [WRes, resolveLoop, hcur, he]
+    · next e hne he => simp [WRes, resolveLoop, hcur, he]
+    · next n g hg =>
+      split
+      · trivial
+      · split <;> simp [WRes, resolveLoop, hcur, hg]
+    · next v hne hg =>
+      simp only [WRes, resolveLoop, hc, Bool.false_eq_true, ↓reduceIte, hg]
+      first
+        | done
+        | (cases v with
+           | stream _ _ _ => rfl
+           | obj o => cases o <;> first | rfl | exact absurd rfl (hne _ _))
+  | succ d ih =>
+    intro path cur chain hmem hcur
+    have hc : path.contains cur = false := by simpa using hcur
+    unfold walkChain
+    split
+    · next he => simp [WRes, resolveLoop, hcur, he]
+    · next e hne he => simp [WRes, resolveLoop, hcur, he]
+    · next n g hg =>
+      split
+      · trivial
+      · split
+        · next hcon =>
+          have : (cur :: path).contains (n, g) = true := by
+            have := (hmem (n, g)).mp (by simpa using hcon)
+            simpa using this
+          simp only [WRes, resolveLoop, hc, Bool.false_eq_true, ↓reduceIte, hg]
+          simp only [this, ↓reduceIte]
+        · next hcon =>
+          have hnm : (n, g) ∉ cur :: path := by
+            intro h; exact hcon (by simpa using (hmem (n, g)).mpr h)
+          have := ih (cur :: path) (n, g) (chain ++ [(n, g)])
+            (by intro x
+                rw [List.mem_append, List.mem_singleton, List.mem_cons]
+                constructor
+                · rintro (h | h)
+                  · exact Or.inr ((hmem x).mp h)
+                  · exact Or.inl h
+                · rintro (h | h)
+                  · exact Or.inr h
+                  · exact Or.inl ((hmem x).mpr h))
+            hnm
+          show WRes G (d + 1) path cur (walkChain G tr d (chain ++ [(n, g)]) (n, g))
+          cases hw : walkChain G tr d (chain ++ [(n, g)]) (n, g) with
+          | known t c => trivial
+          | ends v c =>
+            rw [hw] at this
+            simp only [WRes] at this ⊢
+            rw [resolveLoop]
+            simp only [hc, Bool.false_eq_true, ↓reduceIte, hg]
+            exact this
+          | dead =>
+            rw [hw] at this
+            simp only [WRes] at this ⊢
+            rw [resolveLoop]
+            simp only [hc, Bool.false_eq_true, ↓reduceIte, hg]
+            exact this
+          | fails e =>
+            rw [hw] at this
+            simp only [WRes] at this ⊢
+            rw [resolveLoop]
+            simp only [hc, Bool.false_eq_true, ↓reduceIte, hg]
+            exact this
+    · next v hne hg =>
+      simp only [WRes, resolveLoop, hc, Bool.false_eq_true, ↓reduceIte, hg]
+      first
+        | done
+        | (cases v with
+           | stream _ _ _ => rfl
+           | obj o => cases o <;> first | rfl | exact absurd rfl (hne _ _))
+
+theorem depth_succ : Gen.cpy_MaxExtractDepth - 1 + 1 = Gen.cpy_MaxExtractDepth := by decide
+
+theorem resolveOrNull_of_loop (G : Graph) (r : Ref) :
+    resolveOrNull G r =
+      match resolveLoop G true Gen.cpy_MaxExtractDepth [] r with
+      | .error .malformed => .ok (.obj .null)
+      | x => x := by
+  unfold resolveOrNull resolve
+  cases h : resolveLoop G true Gen.cpy_MaxExtractDepth [] (r.1, r.2) with
+  | error e => cases e <;> simp_all
+  | ok v => simp_all
+
+/-- What `CopyReference(r)` learns from its walk.  `ends v c`: either the chain of references
+    starting at `r` ends at an object with value `v` (`c` are all its links), or it does not end
+    properly (malformed link, reference loop, more than `MaxExtractDepth` links: `Resolve` fails
+    with a malformed-file error) and then `v` is null and `c = [r]`. -/
+def WOutF (G : Graph) (tr : List (Ref × Ref)) (r : Ref) : Walk → Prop
+  | .fails e => e ≠ .fuel ∧ e ≠ .malformed ∧ resolveLoop G true Gen.cpy_MaxExtractDepth [] r = .error e
+  | .dead => False
+  | .known t c => WOut G tr r (.known t c)
+  | .ends v c => resolveOrNull G r = .ok v ∧ c.Nodup ∧ (∀ k ∈ c, assoc k tr = none) ∧ r ∈ c ∧
+      ((c = [r] ∧ v = .obj .null ∧ resolveLoop G true Gen.cpy_MaxExtractDepth [] r = .error .malformed) ∨
+       (resolveLoop G true Gen.cpy_MaxExtractDepth [] r = .ok v ∧
+        ∃ e ∈ c, CPY.get G e true = .ok v ∧ ¬ IsRef v ∧ (∀ k ∈ c, k = e ∨ Leads G k e) ∧
+          ∀ k ∈ c, k ≠ e → ∃ y ∈ c, CPY.get G k true = .ok (.obj (.ref y.1 y.2))))
+
+theorem walkFrom_out {G : Graph} {tr : List (Ref × Ref)} {r : Ref} (hr : assoc r tr = none) :
+    WOutF G tr r (walkFrom G tr r) := by
+  have h1 := walk_out G tr r (Gen.cpy_MaxExtractDepth - 1) [r] r
+    ⟨by simp, by simp, by simp, by simpa using hr, by simp, by simp⟩
+  have h2 := walk_resolve G tr (Gen.cpy_MaxExtractDepth - 1) [] r [r] (by simp) (by simp)
+  unfold walkFrom
+  cases hw : walkChain G tr (Gen.cpy_MaxExtractDepth - 1) [r] r with
+  | known t c => rw [hw] at h1; exact h1
+  | fails e =>
+    rw [hw] at h1 h2
+    simp only [WRes, depth_succ] at h2
+    exact ⟨h1.1, h1.2, h2⟩
+  | dead =>
+    rw [hw] at h2
+    simp only [WRes, depth_succ] at h2
+    refine ⟨?_, by simp, by simpa using hr, by simp, Or.inl ⟨rfl, rfl, h2⟩⟩
+    rw [resolveOrNull_of_loop, h2]
+  | ends v c =>
+    rw [hw] at h1 h2
+    simp only [WRes, depth_succ] at h2
+    obtain ⟨w1, w2, w3, w4⟩ := h1
+    refine ⟨?_, w1, w2, w3, Or.inr ⟨h2, w4⟩⟩
+    rw [resolveOrNull_of_loop, h2]
+
+/-- if the walk of `CopyReference(r)` reaches the end of the chain, its value is what `Resolve`
+    gives (null for malformed links, loops and over-deep chains) -/
+theorem walkFrom_ends {G : Graph} {tr : List (Ref × Ref)} {r : Ref} {v : Val} {c : List Ref}
+    (hr : assoc r tr = none) (h : walkFrom G tr r = .ends v c) : resolveOrNull G r = .ok v := by
+  have := walkFrom_out (G := G) hr
+  rw [h] at this
+  exact this.1
+
+/-- if the walk fails, `Resolve` fails the same way -/
+theorem walkFrom_fails {G : Graph} {tr : List (Ref × Ref)} {r : Ref} {e : CErr}
+    (hr : assoc r tr = none) (h : walkFrom G tr r = .fails e) :
+    resolveLoop G true Gen.cpy_MaxExtractDepth [] r = .error e := by
+  have := walkFrom_out (G := G) hr
+  rw [h] at this
+  exact this.2.2
+
+theorem walkFrom_not_dead {G : Graph} {tr : List (Ref × Ref)} {r : Ref} : walkFrom G tr r ≠ .dead := by
+  unfold walkFrom
+  split <;> simp_all
+
 /-! ### the effect of one call on the copier state -/
 
 def refOf (n : Nat) : Ref := (n, 0)
 
 /-- What a successful call does to the state: `N` are the new entries of `trans` (newest first),
-    `P` the objects written.  The new source references were not translated before and are
-    pairwise distinct; their targets are exactly the object numbers allocated by the call, in
-    order; the objects written are exactly these targets, each once; and each object written is
-    the image (under the final translation) of the source object it was allocated for. -/
+    `P` the objects written, `a` the number of object numbers allocated.  The new source references
+    were not translated before and are pairwise distinct; each is translated to a number allocated
+    by the call or (a link of a chain of references which ends at an object copied earlier) to a
+    target that was in `trans` already; the objects written are exactly the allocated numbers,
+    each once; and each object written is the image (under the final translation) of a source
+    object it was allocated for. -/
 def Eff (G : Graph) (s s' : St) : Prop :=
-  ∃ (N : List (Ref × Ref)) (P : List (Ref × Val)),
-    s'.trans = N ++ s.trans ∧ s'.puts = s.puts ++ P ∧ s'.next = s.next + N.length ∧
+  ∃ (N : List (Ref × Ref)) (P : List (Ref × Val)) (a : Nat),
+    s'.trans = N ++ s.trans ∧ s'.puts = s.puts ++ P ∧ s'.next = s.next + a ∧
     (∀ k ∈ N.map Prod.fst, assoc k s.trans = none) ∧ (N.map Prod.fst).Nodup ∧
-    N.map Prod.snd = ((List.range' s.next N.length).map refOf).reverse ∧
-    (P.map Prod.fst).Perm (N.map Prod.snd) ∧
+    (∀ p ∈ N, p.2 ∈ s.trans.map Prod.snd ∨ ∃ m, p.2 = refOf m ∧ s.next ≤ m ∧ m < s.next + a) ∧
+    (P.map Prod.fst).Perm ((List.range' s.next a).map refOf) ∧
     (∀ p ∈ P, ∃ src, (src, p.1) ∈ N ∧ Image s'.trans G src p.2)
 
 theorem Eff.refl (G : Graph) (s : St) : Eff G s s :=
-  ⟨[], [], by simp, by simp, by simp, by simp, by simp, by simp, by simp, by simp⟩
+  ⟨[], [], 0, by simp, by simp, by simp, by simp, by simp, by simp, by simp, by simp⟩
 
 theorem Eff.extends {G : Graph} {s s' : St} (h : Eff G s s') : Extends s.trans s'.trans := by
-  obtain ⟨N, P, h1, _, _, h4, _⟩ := h
+  obtain ⟨N, P, a, h1, _, _, h4, _⟩ := h
   rw [h1]; exact extends_append N s.trans h4
 
 theorem Eff.next_le {G : Graph} {s s' : St} (h : Eff G s s') : s.next ≤ s'.next := by
-  obtain ⟨N, P, _, _, h3, _⟩ := h
+  obtain ⟨N, P, a, _, _, h3, _⟩ := h
   omega
 
 theorem Eff.trans {G : Graph} {s1 s2 s3 : St} (h12 : Eff G s1 s2) (h23 : Eff G s2 s3) : Eff G s1 s3 := by
   have hext := h23.extends
-  obtain ⟨N1, P1, a1, b1, c1, d1, e1, f1, g1, i1⟩ := h12
-  obtain ⟨N2, P2, a2, b2, c2, d2, e2, f2, g2, i2⟩ := h23
-  refine ⟨N2 ++ N1, P1 ++ P2, ?_, ?_, ?_, ?_, ?_, ?_, ?_, ?_⟩
+  obtain ⟨N1, P1, n1, a1, b1, c1, d1, e1, f1, g1, i1⟩ := h12
+  obtain ⟨N2, P2, n2, a2, b2, c2, d2, e2, f2, g2, i2⟩ := h23
+  refine ⟨N2 ++ N1, P1 ++ P2, n1 + n2, ?_, ?_, ?_, ?_, ?_, ?_, ?_, ?_⟩
   · rw [a2, a1, List.append_assoc]
   · rw [b2, b1, List.append_assoc]
-  · rw [c2, c1, List.length_append]; omega
+  · rw [c2, c1]; omega
   · intro k hk
     simp only [List.map_append, List.mem_append] at hk
     rcases hk with hk | hk
@@ -187,10 +496,22 @@ theorem Eff.trans {G : Graph} {s1 s2 s3 : St} (h12 : Eff G s1 s2) (h23 : Eff G s
     have hn : assoc a N1 = none := by
       split at this <;> simp_all
     exact (assoc_none_iff a N1).mp hn hb
-  · rw [List.map_append, f2, f1, c1, List.length_append, Nat.add_comm N2.length N1.length,
-      ← List.range'_append_1, List.map_append, List.reverse_append]
-  · rw [List.map_append, List.map_append]
-    exact (List.Perm.append g1 g2).trans List.perm_append_comm
+  · intro p hp
+    rcases List.mem_append.mp hp with hp | hp
+    · rcases f2 p hp with h | ⟨m, hm, h1, h2⟩
+      · rw [a1, List.map_append, List.mem_append] at h
+        rcases h with h | h
+        · obtain ⟨q, hq, hqe⟩ := List.mem_map.mp h
+          rcases f1 q hq with h' | ⟨m, hm, h1, h2⟩
+          · exact Or.inl (hqe ▸ h')
+          · exact Or.inr ⟨m, hqe ▸ hm, h1, by omega⟩
+        · exact Or.inl h
+      · exact Or.inr ⟨m, hm, by omega, by omega⟩
+    · rcases f1 p hp with h | ⟨m, hm, h1, h2⟩
+      · exact Or.inl h
+      · exact Or.inr ⟨m, hm, h1, by omega⟩
+  · rw [List.map_append, ← List.range'_append_1, List.map_append, ← c1]
+    exact List.Perm.append g1 g2
   · intro p hp
     rcases List.mem_append.mp hp with hp | hp
     · obtain ⟨src, hm, him⟩ := i1 p hp
@@ -247,46 +568,98 @@ theorem put_ok {s s' : St} {r : Ref} {v : Val} (h : put s r v = .ok s') :
   · cases h
   · cases h; rfl
 
-/-- the new-reference branch of `CopyReference` -/
-theorem Eff_copyRef_new {G : Graph} {s s3 : St} {r : Ref} {v' : Val}
-    (hnew : assoc r s.trans = none)
-    (h23 : Eff G { trans := (r, refOf s.next) :: s.trans, next := s.next + 1, puts := s.puts } s3)
+
+
+theorem mem_enter_keys {chain : List Ref} {t : Ref} {k : Ref} :
+    k ∈ (chain.map fun k => (k, t)).map Prod.fst ↔ k ∈ chain := by
+  simp [List.map_map, Function.comp_def]
+
+theorem assoc_enter_none {chain : List Ref} {t k : Ref} {tr : List (Ref × Ref)}
+    (h : assoc k (enter chain t tr) = none) : k ∉ chain ∧ assoc k tr = none := by
+  unfold enter at h
+  rw [assoc_append] at h
+  split at h
+  · cases h
+  · next hn => exact ⟨fun hk => (assoc_none_iff k _).mp hn (mem_enter_keys.mpr hk), h⟩
+
+/-- the branch of `CopyReference` which allocates: the chain ended (or resolves to null) -/
+theorem Eff_copyRef_new {G : Graph} {s s3 : St} {r : Ref} {chain : List Ref} {v' : Val}
+    (hnd : chain.Nodup) (hfresh : ∀ k ∈ chain, assoc k s.trans = none) (hr : r ∈ chain)
+    (h23 : Eff G { trans := enter chain (refOf s.next) s.trans, next := s.next + 1, puts := s.puts } s3)
     (him : Image s3.trans G r v') :
     Eff G s { trans := s3.trans, next := s3.next, puts := s3.puts ++ [(refOf s.next, v')] } := by
-  obtain ⟨N, P, a, b, c, d, e, f, g, i⟩ := h23
-  simp only at a b c d
-  refine ⟨N ++ [(r, refOf s.next)], P ++ [(refOf s.next, v')], ?_, ?_, ?_, ?_, ?_, ?_, ?_, ?_⟩
-  · simp [a]
-  · simp [b]
-  · simp [c]; omega
+  obtain ⟨N, P, a, ha, hb, hc, hd, he, hf, hg, hi⟩ := h23
+  simp only at ha hb hc hd hf hg
+  refine ⟨N ++ chain.map (fun k => (k, refOf s.next)), P ++ [(refOf s.next, v')], a + 1,
+    ?_, ?_, ?_, ?_, ?_, ?_, ?_, ?_⟩
+  · simp [ha, enter]
+  · simp [hb]
+  · simp only [hc]; omega
   · intro k hk
-    simp only [List.map_append, List.mem_append, List.map_cons, List.map_nil, List.mem_singleton] at hk
+    rw [List.map_append, List.mem_append] at hk
     rcases hk with hk | hk
-    · have := d k hk
-      simp only [assoc] at this
-      split at this <;> simp_all
-    · subst hk; exact hnew
+    · exact (assoc_enter_none (hd k hk)).2
+    · exact hfresh k (mem_enter_keys.mp hk)
   · rw [List.map_append, List.nodup_append]
-    refine ⟨e, by simp, ?_⟩
-    intro a' ha b' hb hab
-    simp only [List.map_cons, List.map_nil, List.mem_singleton] at hb
-    subst hab; subst hb
-    have := d a' ha
-    simp [assoc] at this
-  · simp only [List.map_append, List.map_cons, List.map_nil, List.length_append, List.length_cons,
-      List.length_nil]
-    rw [f, Nat.add_comm N.length (0+1), ← List.range'_append_1]
-    simp
-  · simp only [List.map_append, List.map_cons, List.map_nil]
-    exact List.Perm.append g (List.Perm.refl _)
+    refine ⟨he, ?_, ?_⟩
+    · simpa [List.map_map, Function.comp_def] using hnd
+    · intro x hx y hy hxy
+      subst hxy
+      exact (assoc_enter_none (hd x hx)).1 (mem_enter_keys.mp hy)
   · intro p hp
     rcases List.mem_append.mp hp with hp | hp
-    · obtain ⟨src, hm, hi⟩ := i p hp
-      exact ⟨src, List.mem_append_left _ hm, hi⟩
+    · rcases hf p hp with h | ⟨m, hm, h1, h2⟩
+      · unfold enter at h
+        rw [List.map_append, List.mem_append] at h
+        rcases h with h | h
+        · right
+          refine ⟨s.next, ?_, Nat.le_refl _, by omega⟩
+          obtain ⟨q, hq, hqe⟩ := List.mem_map.mp h
+          obtain ⟨k, _, rfl⟩ := List.mem_map.mp hq
+          exact hqe.symm
+        · exact Or.inl h
+      · exact Or.inr ⟨m, hm, by omega, by omega⟩
+    · obtain ⟨k, _, rfl⟩ := List.mem_map.mp hp
+      exact Or.inr ⟨s.next, rfl, Nat.le_refl _, by omega⟩
+  · rw [List.map_append, Nat.add_comm a 1, ← List.range'_append_1, List.map_append]
+    simp only [List.map_cons, List.map_nil, List.range'_one]
+    exact (List.Perm.append hg (List.Perm.refl _)).trans List.perm_append_comm
+  · intro p hp
+    rcases List.mem_append.mp hp with hp | hp
+    · obtain ⟨src, hm, hi'⟩ := hi p hp
+      exact ⟨src, List.mem_append_left _ hm, hi'⟩
     · simp only [List.mem_singleton] at hp
       subst hp
-      exact ⟨r, by simp, him⟩
+      exact ⟨r, List.mem_append_right _ (List.mem_map.mpr ⟨r, hr, rfl⟩), him⟩
 
+/-- the branch of `CopyReference` which finds a link of the chain translated already -/
+theorem Eff_copyRef_known {G : Graph} {s : St} {chain : List Ref} {t x : Ref}
+    (hnd : chain.Nodup) (hfresh : ∀ k ∈ chain, assoc k s.trans = none)
+    (hx : assoc x s.trans = some t) :
+    Eff G s { s with trans := enter chain t s.trans } := by
+  refine ⟨chain.map (fun k => (k, t)), [], 0, rfl, by simp, by simp, ?_, ?_, ?_, by simp, by simp⟩
+  · intro k hk; exact hfresh k (mem_enter_keys.mp hk)
+  · simpa [List.map_map, Function.comp_def] using hnd
+  · intro p hp
+    obtain ⟨k, _, rfl⟩ := List.mem_map.mp hp
+    exact Or.inl (List.mem_map.mpr ⟨(x, t), assoc_some_mem _ _ _ hx, rfl⟩)
+
+theorem assoc_enter_mem {chain : List Ref} {t r : Ref} {tr : List (Ref × Ref)} (h : r ∈ chain) :
+    assoc r (enter chain t tr) = some t := by
+  unfold enter
+  rw [assoc_append]
+  have : assoc r (chain.map fun k => (k, t)) = some t := by
+    induction chain with
+    | nil => simp at h
+    | cons a l ih =>
+      simp only [List.map_cons, assoc]
+      split
+      · rfl
+      · next hne =>
+        rcases List.mem_cons.mp h with e | e
+        · exact absurd e.symm hne
+        · exact ih e
+  rw [this]
 
 /-! ### the main induction: what every successful call does -/
 
@@ -491,15 +864,24 @@ theorem step_ref (G : Graph) (f : Nat) (hV : PVal G f) : PRef G (f+1) := by
     cases h
     exact ⟨Eff.refl G _, ht⟩
   · next hnone =>
+    have hw := walkFrom_out (G := G) hnone
     split at h
     · cases h
-    · next n s1 ha =>
-      obtain ⟨hn, hs1⟩ := alloc_ok ha
-      subst hn; subst hs1
-      simp only at h
+    · cases h
+    · next t' chain hwk =>
+      cases h
+      rw [hwk] at hw
+      obtain ⟨w1, w2, w3, x, hx, _, _⟩ := hw
+      exact ⟨Eff_copyRef_known w1 w2 hx, assoc_enter_mem w3⟩
+    · next v chain hwk =>
+      rw [hwk] at hw
+      obtain ⟨hres, w1, w2, w3, _⟩ := hw
       split at h
       · cases h
-      · next v hres =>
+      · next n s1 ha =>
+        obtain ⟨hn, hs1⟩ := alloc_ok ha
+        subst hn; subst hs1
+        simp only at h
         split at h
         · cases h
         · next v' s3 hc =>
@@ -516,8 +898,8 @@ theorem step_ref (G : Graph) (f : Nat) (hV : PVal G f) : PRef G (f+1) := by
             rw [if_neg hlt] at hs4
             subst hs4
             have him : Image s3.trans G r v' := ⟨v, sp, hres, p1, p2⟩
-            refine ⟨Eff_copyRef_new hnone e him, ?_⟩
-            exact e.extends r _ (by simp [assoc])
+            refine ⟨Eff_copyRef_new w1 w2 w3 e him, ?_⟩
+            exact e.extends r _ (assoc_enter_mem w3)
 
 theorem copy_main (G : Graph) : ∀ f : Nat,
     PObj G f ∧ PList G f ∧ PKV G f ∧ PInl G f ∧ PSD G f ∧ PVal G f ∧ PRef G f := by
@@ -538,6 +920,327 @@ theorem copy_main (G : Graph) : ∀ f : Nat,
       step_sd G f hK hI, step_val G f hO hS, step_ref G f hV⟩
 
 
+
+
+/-! ### aliases: every new translation is covered by an object written, or leads to an older one -/
+
+/-- Resolution does not depend on the link at which it starts.  This holds for every graph whose
+    chains of references end (or loop) within `MaxExtractDepth` links; a longer chain resolves to
+    null from its first links and to its value from the later ones. -/
+def LinkInv (G : Graph) : Prop :=
+  ∀ a n g, CPY.get G a true = .ok (.obj (.ref n g)) → resolveOrNull G a = resolveOrNull G (n, g)
+
+theorem LinkInv.leads {G : Graph} (hL : LinkInv G) {a b : Ref} (h : Leads G a b) :
+    resolveOrNull G a = resolveOrNull G b := by
+  induction h with
+  | one h => exact hL _ _ _ h
+  | more h _ ih => rw [hL _ _ _ h]; exact ih
+
+theorem Image_of_leads {G : Graph} (hL : LinkInv G) {tr : List (Ref × Ref)} {k x : Ref} {v : Val}
+    (h : Leads G k x) (hi : Image tr G x v) : Image tr G k v := by
+  obtain ⟨sv, sp, h1, h2, h3⟩ := hi
+  exact ⟨sv, sp, by rw [hL.leads h]; exact h1, h2, h3⟩
+
+/-- every source reference translated during the call is covered: its target object has been
+    written and is its image, or it is an alias (it leads to a reference that was translated
+    before the call, to the same target) -/
+def AliasOK (G : Graph) (s s' : St) : Prop :=
+  ∀ k t, (k, t) ∈ s'.trans → assoc k s.trans = none →
+    (∃ v, (t, v) ∈ s'.puts ∧ Image s'.trans G k v) ∨ (∃ x, assoc x s.trans = some t ∧ Leads G k x)
+
+theorem AliasOK.refl (G : Graph) (s : St) : AliasOK G s s := by
+  intro k t hm hn
+  exact absurd (List.mem_map.mpr ⟨(k, t), hm, rfl⟩) ((assoc_none_iff k s.trans).mp hn)
+
+theorem AliasOK.trans {G : Graph} (hL : LinkInv G) {s1 s2 s3 : St} (e12 : Eff G s1 s2) (e23 : Eff G s2 s3)
+    (a12 : AliasOK G s1 s2) (a23 : AliasOK G s2 s3) : AliasOK G s1 s3 := by
+  have hext := e23.extends
+  obtain ⟨N2, P2, n2, ha2, hb2, _, hd2, _⟩ := e23
+  have hputs : ∀ p, p ∈ s2.puts → p ∈ s3.puts := fun p hp => by rw [hb2]; exact List.mem_append_left _ hp
+  -- the coverage of an entry of s2 carries over to s3
+  have carry : ∀ k t, (k, t) ∈ s2.trans → assoc k s1.trans = none →
+      (∃ v, (t, v) ∈ s3.puts ∧ Image s3.trans G k v) ∨ (∃ x, assoc x s1.trans = some t ∧ Leads G k x) := by
+    intro k t hm hn
+    rcases a12 k t hm hn with ⟨v, hv, hi⟩ | h
+    · exact Or.inl ⟨v, hputs _ hv, Image_stable hext G k v hi⟩
+    · exact Or.inr h
+  intro k t hm hn
+  cases h2 : assoc k s2.trans with
+  | some t2 =>
+    -- k was translated by the first call; the second call did not touch it
+    have hm2 : (k, t) ∈ s2.trans := by
+      rw [ha2, List.mem_append] at hm
+      rcases hm with h | h
+      · have := hd2 k (List.mem_map.mpr ⟨(k, t), h, rfl⟩)
+        rw [h2] at this; cases this
+      · exact h
+    exact carry k t hm2 hn
+  | none =>
+    rcases a23 k t hm h2 with h | ⟨x, hx, hl⟩
+    · exact Or.inl h
+    · cases h1 : assoc x s1.trans with
+      | some t' =>
+        have := e12.extends x t' h1
+        rw [hx] at this; cases this
+        exact Or.inr ⟨x, h1, hl⟩
+      | none =>
+        rcases carry x t (assoc_some_mem _ _ _ hx) h1 with ⟨v, hv, hi⟩ | ⟨x', hx', hl'⟩
+        · exact Or.inl ⟨v, hv, Image_of_leads hL hl hi⟩
+        · exact Or.inr ⟨x', hx', hl.trans hl'⟩
+
+def AlObj (G : Graph) (f : Nat) : Prop := ∀ s o o' s', copyObj f G s o = .ok (o', s') → AliasOK G s s'
+def AlList (G : Graph) (f : Nat) : Prop := ∀ s xs ys s', copyList f G s xs = .ok (ys, s') → AliasOK G s s'
+def AlKV (G : Graph) (f : Nat) : Prop := ∀ s L L' s', copyKV f G s L = .ok (L', s') → AliasOK G s s'
+def AlInl (G : Graph) (f : Nat) : Prop := ∀ s src res key res' s',
+  inlineKey f G s src res key = .ok (res', s') → AliasOK G s s'
+def AlSD (G : Graph) (f : Nat) : Prop := ∀ s src res s', copyStreamDict f G s src = .ok (res, s') → AliasOK G s s'
+def AlVal (G : Graph) (f : Nat) : Prop := ∀ s v v' s', copyVal f G s v = .ok (v', s') → AliasOK G s s'
+def AlRef (G : Graph) (f : Nat) : Prop := ∀ s r t s', copyRef f G s r = .ok (t, s') → AliasOK G s s'
+
+section
+variable (G : Graph) (hL : LinkInv G)
+include hL
+
+theorem alstep_obj (f : Nat) (hLi : AlList G f) (hK : AlKV G f) (hR : AlRef G f) : AlObj G (f+1) := by
+  intro s o o' s' h
+  cases o with
+  | dict kv =>
+    simp only [copyObj] at h
+    split at h
+    · cases h
+    · next kv' s1 hk => cases h; exact hK _ _ _ _ hk
+  | arr xs =>
+    simp only [copyObj] at h
+    split at h
+    · cases h
+    · next ys s1 hk => cases h; exact hLi _ _ _ _ hk
+  | ref n g =>
+    simp only [copyObj] at h
+    split at h
+    · cases h
+    · next t s1 hk => cases h; exact hR _ _ _ _ hk
+  | _ => simp only [copyObj] at h; cases h; exact AliasOK.refl G _
+
+theorem alstep_list (f : Nat) (hO : AlObj G f) (hLi : AlList G f) : AlList G (f+1) := by
+  intro s xs ys s' h
+  cases xs with
+  | nil => simp only [copyList] at h; cases h; exact AliasOK.refl G _
+  | cons x xs =>
+    simp only [copyList] at h
+    split at h
+    · cases h
+    · next y s1 hy =>
+      split at h
+      · cases h
+      · next ys' s2 hys =>
+        cases h
+        exact AliasOK.trans hL ((copy_main G f).1 _ _ _ _ hy).1 ((copy_main G f).2.1 _ _ _ _ hys).1
+          (hO _ _ _ _ hy) (hLi _ _ _ _ hys)
+
+theorem alstep_kv (f : Nat) (hO : AlObj G f) (hK : AlKV G f) : AlKV G (f+1) := by
+  intro s L L' s' h
+  cases L with
+  | nil => simp only [copyKV] at h; cases h; exact AliasOK.refl G _
+  | cons p rest =>
+    obtain ⟨k, v⟩ := p
+    by_cases hv : v = .null
+    · subst hv
+      simp only [copyKV] at h
+      split at h
+      · cases h
+      · next rest' s1 hr => cases h; exact hK _ _ _ _ hr
+    · have key : ∀ (v' : Obj) (s1 : St) (rest' : KV) (s2 : St), copyObj f G s v = .ok (v', s1) →
+          copyKV f G s1 rest = .ok (rest', s2) → AliasOK G s s2 := by
+        intro v' s1 rest' s2 hv' hr
+        exact AliasOK.trans hL ((copy_main G f).1 _ _ _ _ hv').1 ((copy_main G f).2.2.1 _ _ _ _ hr).1
+          (hO _ _ _ _ hv') (hK _ _ _ _ hr)
+      cases v <;> first
+        | exact absurd rfl hv
+        | (simp only [copyKV] at h
+           split at h
+           · cases h
+           · next v' s1 hv' =>
+             split at h
+             · cases h
+             · next rest' s2 hr =>
+               cases h
+               exact key _ _ _ _ hv' hr)
+
+theorem alstep_inl (f : Nat) (hO : AlObj G f) : AlInl G (f+1) := by
+  intro s src res key res' s' h
+  simp only [inlineKey] at h
+  split at h
+  · cases h; exact AliasOK.refl G _
+  · split at h
+    · cases h
+    · cases h
+    · next inl hi =>
+      split at h
+      · cases h
+      · next repl s1 hc => cases h; exact hO _ _ _ _ hc
+
+theorem alstep_sd (f : Nat) (hK : AlKV G f) (hI : AlInl G f) : AlSD G (f+1) := by
+  intro s src res s' h
+  simp only [copyStreamDict] at h
+  split at h
+  · cases h
+  · next res1 s1 h1 =>
+    split at h
+    · cases h
+    · next res2 s2 h2 =>
+      have e1 := ((copy_main G f).2.2.1 _ _ _ _ h1).1
+      have e2 := ((copy_main G f).2.2.2.1 _ _ _ _ _ _ h2).1
+      have e3 := ((copy_main G f).2.2.2.1 _ _ _ _ _ _ h).1
+      exact AliasOK.trans hL (e1.trans e2) e3
+        (AliasOK.trans hL e1 e2 (hK _ _ _ _ h1) (hI _ _ _ _ _ _ h2)) (hI _ _ _ _ _ _ h)
+
+theorem alstep_val (f : Nat) (hO : AlObj G f) (hS : AlSD G f) : AlVal G (f+1) := by
+  intro s v v' s' h
+  cases v with
+  | obj o =>
+    simp only [copyVal] at h
+    split at h
+    · cases h
+    · next o' s1 ho => cases h; exact hO _ _ _ _ ho
+  | stream dict data enc =>
+    simp only [copyVal] at h
+    split at h
+    · cases h
+    · next dict' s1 hd =>
+      have := hS _ _ _ _ hd
+      split at h
+      · cases h
+      · cases h
+      · cases h; exact this
+
+
+omit hL in
+theorem mem_enter {chain : List Ref} {t : Ref} {tr : List (Ref × Ref)} {k t' : Ref}
+    (h : (k, t') ∈ enter chain t tr) : (k ∈ chain ∧ t' = t) ∨ (k, t') ∈ tr := by
+  unfold enter at h
+  rcases List.mem_append.mp h with h | h
+  · obtain ⟨x, hx, he⟩ := List.mem_map.mp h
+    cases he; exact Or.inl ⟨hx, rfl⟩
+  · exact Or.inr h
+
+/-- all links of a chain that ended resolve to what its first reference resolves to -/
+theorem chain_resolve {tr : List (Ref × Ref)} {r : Ref} {v : Val} {c : List Ref}
+    (hw : WOutF G tr r (.ends v c)) : ∀ k ∈ c, resolveOrNull G k = .ok v := by
+  obtain ⟨hres, _, _, hr, hcase⟩ := hw
+  intro k hk
+  rcases hcase with ⟨hc, _⟩ | ⟨_, e, _, _, _, hle, _⟩
+  · rw [hc] at hk; simp only [List.mem_singleton] at hk; subst hk; exact hres
+  · have hre : resolveOrNull G r = resolveOrNull G e := by
+      rcases hle r hr with h | h
+      · rw [h]
+      · exact hL.leads h
+    rcases hle k hk with h | h
+    · rw [h, ← hre]; exact hres
+    · rw [hL.leads h, ← hre]; exact hres
+
+theorem alstep_ref (f : Nat) (hV : AlVal G f) : AlRef G (f+1) := by
+  intro s r t s' h
+  simp only [copyRef] at h
+  split at h
+  · cases h; exact AliasOK.refl G _
+  · next hnone =>
+    have hw := walkFrom_out (G := G) hnone
+    split at h
+    · cases h
+    · cases h
+    · next t' chain hwk =>
+      cases h
+      rw [hwk] at hw
+      obtain ⟨_, _, _, x, hx, hlead, _⟩ := hw
+      intro k t'' hm hn
+      rcases mem_enter hm with ⟨hk, ht⟩ | hm'
+      · subst ht; exact Or.inr ⟨x, hx, hlead k hk⟩
+      · exact absurd (List.mem_map.mpr ⟨(k, t''), hm', rfl⟩) ((assoc_none_iff k s.trans).mp hn)
+    · next v chain hwk =>
+      rw [hwk] at hw
+      have hall := chain_resolve G hL hw
+      obtain ⟨hres, w1, w2, w3, _⟩ := hw
+      split at h
+      · cases h
+      · next n s1 ha =>
+        obtain ⟨hn, hs1⟩ := alloc_ok ha
+        subst hn; subst hs1
+        simp only at h
+        split at h
+        · cases h
+        · next v' s3 hc =>
+          split at h
+          · cases h
+          · next s4 hp =>
+            cases h
+            obtain ⟨e, sp, p1, p2⟩ := (copy_main G f).2.2.2.2.2.1 _ _ _ _ hc
+            have a23 := hV _ _ _ _ hc
+            have hs4 := put_ok hp
+            have hlt : ¬ (s3.next ≤ (refOf s.next).1) := by
+              have := e.next_le
+              simp only [refOf] at this ⊢
+              omega
+            rw [if_neg hlt] at hs4
+            subst hs4
+            -- the object written for the chain is the image of each of its links
+            have himg : ∀ k ∈ chain, Image s3.trans G k v' := fun k hk => ⟨v, sp, hall k hk, p1, p2⟩
+            have hput : (refOf s.next, v') ∈ s3.puts ++ [(refOf s.next, v')] := by simp
+            intro k t' hm hn
+            simp only at hm
+            by_cases hkc : k ∈ chain
+            · -- a link of the chain: its target is the new object
+              have h2 : assoc k (enter chain (refOf s.next) s.trans) = some (refOf s.next) := assoc_enter_mem hkc
+              have h3 := e.extends k _ h2
+              have : t' = refOf s.next := by
+                obtain ⟨N, P, a, ha', _, _, hd, _⟩ := e
+                simp only at ha' hd
+                rw [ha', List.mem_append] at hm
+                rcases hm with hm | hm
+                · have := hd k (List.mem_map.mpr ⟨(k, t'), hm, rfl⟩)
+                  rw [h2] at this; cases this
+                · rcases mem_enter hm with ⟨_, ht⟩ | hm'
+                  · exact ht
+                  · exact absurd (List.mem_map.mpr ⟨(k, t'), hm', rfl⟩) ((assoc_none_iff k s.trans).mp hn)
+              subst this
+              exact Or.inl ⟨v', hput, himg k hkc⟩
+            · have hn2 : assoc k (enter chain (refOf s.next) s.trans) = none := by
+                unfold enter; rw [assoc_append]
+                have : assoc k (chain.map fun k => (k, refOf s.next)) = none := by
+                  rw [assoc_none_iff]; exact fun h => hkc (mem_enter_keys.mp h)
+                rw [this]; exact hn
+              rcases a23 k t' hm hn2 with ⟨w, hw', hi⟩ | ⟨x, hx, hl⟩
+              · exact Or.inl ⟨w, List.mem_append_left _ hw', hi⟩
+              · -- an alias of something known when the value was copied
+                unfold enter at hx
+                rw [assoc_append] at hx
+                split at hx
+                · next t0 h0 =>
+                  cases hx
+                  obtain ⟨q, hq, hqe⟩ := List.mem_map.mp (assoc_some_mem _ _ _ h0)
+                  cases hqe
+                  exact Or.inl ⟨v', hput, Image_of_leads hL hl (himg x hq)⟩
+                · exact Or.inr ⟨x, hx, hl⟩
+
+/-- under `LinkInv`, every successful call covers the translations it makes -/
+theorem alias_main : ∀ f : Nat,
+    AlObj G f ∧ AlList G f ∧ AlKV G f ∧ AlInl G f ∧ AlSD G f ∧ AlVal G f ∧ AlRef G f := by
+  intro f
+  induction f with
+  | zero =>
+    refine ⟨?_, ?_, ?_, ?_, ?_, ?_, ?_⟩
+    · intro s o o' s' h; simp [copyObj] at h
+    · intro s o o' s' h; simp [copyList] at h
+    · intro s o o' s' h; simp [copyKV] at h
+    · intro s a b c d e h; simp [inlineKey] at h
+    · intro s o o' s' h; simp [copyStreamDict] at h
+    · intro s o o' s' h; simp [copyVal] at h
+    · intro s o o' s' h; simp [copyRef] at h
+  | succ f ih =>
+    obtain ⟨hO, hLi, hK, hI, hS, hV, hR⟩ := ih
+    exact ⟨alstep_obj G hL f hLi hK hR, alstep_list G hL f hO hLi, alstep_kv G hL f hO hK,
+      alstep_inl G hL f hO, alstep_sd G hL f hK hI, alstep_val G hL f hO hS, alstep_ref G hL f hV⟩
+
+end
 /-! ### the property theorems -/
 
 theorem copyRef_effect {G : Graph} {f : Nat} {s s' : St} {r t : Ref}
@@ -551,36 +1254,40 @@ theorem range_refs_nodup (a n : Nat) : ((List.range' a n).map refOf).Nodup := by
   have h : (List.range' a n).Nodup := List.nodup_range' (step := 1) (by omega)
   exact List.Pairwise.map refOf (fun x y hxy hf => hxy (refOf_injective hf)) h
 
+
 /-- **copied_once.**  A successful `CopyReference` extends `trans` by new source references only
-(`trans` stays a function, nothing is overwritten), maps them one-to-one onto the object numbers
-it allocates, and hands to `Writer.Put` exactly these object numbers, each exactly once — for
-every source graph, cyclic or not. -/
+(`trans` stays a function, nothing is overwritten).  Each of them is translated to an object
+number allocated by the call, or - a link of a chain of references that leads to an object
+translated earlier - to a target that was in `trans` before.  Exactly the allocated numbers are
+handed to `Writer.Put`, each exactly once, and each of them is the translation of a new source
+reference — for every source graph, cyclic or not. -/
 theorem copied_once {G : Graph} {f : Nat} {s s' : St} {r t : Ref}
     (h : copyRef f G s r = .ok (t, s')) :
     ∃ (N : List (Ref × Ref)) (P : List (Ref × Val)),
       s'.trans = N ++ s.trans ∧ s'.puts = s.puts ++ P ∧
       (∀ k ∈ N.map Prod.fst, assoc k s.trans = none) ∧ (N.map Prod.fst).Nodup ∧
-      (N.map Prod.snd).Nodup ∧
-      (N.map Prod.snd).Perm ((List.range' s.next (s'.next - s.next)).map refOf) ∧
+      (∀ p ∈ N, p.2 ∈ s.trans.map Prod.snd ∨ ∃ m, p.2 = refOf m ∧ s.next ≤ m ∧ m < s'.next) ∧
       (P.map Prod.fst).Perm ((List.range' s.next (s'.next - s.next)).map refOf) ∧
-      (∀ n, s.next ≤ n → n < s'.next → (P.map Prod.fst).count (refOf n) = 1) := by
-  obtain ⟨N, P, a, b, c, d, e, f', g, _⟩ := (copyRef_effect h).1
-  have hl : s'.next - s.next = N.length := by omega
-  have hperm : (N.map Prod.snd).Perm ((List.range' s.next N.length).map refOf) := by
-    rw [f']; exact List.reverse_perm _
-  refine ⟨N, P, a, b, d, e, ?_, ?_, ?_, ?_⟩
-  · exact (List.Perm.nodup_iff hperm).mpr (range_refs_nodup _ _)
-  · rw [hl]; exact hperm
-  · rw [hl]; exact g.trans hperm
+      (∀ n, s.next ≤ n → n < s'.next → (P.map Prod.fst).count (refOf n) = 1) ∧
+      (∀ n, s.next ≤ n → n < s'.next → ∃ k, (k, refOf n) ∈ N) := by
+  obtain ⟨N, P, a, ha, hb, hc, hd, he, hf, hg, hi⟩ := (copyRef_effect h).1
+  have hl : s'.next - s.next = a := by omega
+  refine ⟨N, P, ha, hb, hd, he, ?_, ?_, ?_, ?_⟩
+  · intro p hp
+    rcases hf p hp with h | ⟨m, hm, h1, h2⟩
+    · exact Or.inl h
+    · exact Or.inr ⟨m, hm, h1, by omega⟩
+  · rw [hl]; exact hg
   · intro n h1 h2
-    have hp := g.trans hperm
-    rw [hp.count_eq]
-    rw [(range_refs_nodup _ _).count, if_pos]
+    rw [hg.count_eq, (range_refs_nodup _ _).count, if_pos]
     exact List.mem_map.mpr ⟨n, List.mem_range'_1.mpr (by omega), rfl⟩
+  · intro n h1 h2
+    have hmem : refOf n ∈ P.map Prod.fst :=
+      hg.mem_iff.mpr (List.mem_map.mpr ⟨n, List.mem_range'_1.mpr (by omega), rfl⟩)
+    obtain ⟨p, hp, hpe⟩ := List.mem_map.mp hmem
+    obtain ⟨src, hm, _⟩ := hi p hp
+    exact ⟨src, hpe ▸ hm⟩
 
-
-/-- **copy_idempotent.**  After a successful `CopyReference(r) = t`, every later
-`CopyReference(r)` returns `t` again and changes nothing (no allocation, no Put), whatever fuel. -/
 theorem copy_idempotent {G : Graph} {f : Nat} {s s' : St} {r t : Ref}
     (h : copyRef f G s r = .ok (t, s')) (f' : Nat) :
     copyRef (f' + 1) G s' r = .ok (t, s') := by
@@ -598,11 +1305,12 @@ theorem copy_stable {G : Graph} {f : Nat} {s s' : St} {r t a ta : Ref}
     copyRef (f' + 1) G s' a = .ok (ta, s') :=
   copy_known ((copyRef_effect h).1.extends a ta ha) f'
 
-/-- **dangling_is_null.**  A reference that resolves to nothing (never written, free, wrong
-generation, malformed object, pure reference cycle, chain deeper than `MaxExtractDepth`) is
-copied as a reference to a new object holding null. -/
+/-- **dangling_is_null.**  A reference that resolves to nothing - here: an object that is not
+defined (never written, free, wrong generation); malformed objects, pure reference cycles and
+chains deeper than `MaxExtractDepth` are treated alike, see `walkChain` - is copied as a
+reference to a new object holding null. -/
 theorem dangling_is_null {G : Graph} {s : St} {r : Ref} (f : Nat)
-    (hnull : resolveOrNull G r = .ok (.obj .null))
+    (hmiss : assoc r G = none)
     (hnew : assoc r s.trans = none)
     (hroom : s.next < Gen.cpy_maxXRefSize)
     (hfree : s.puts.any (fun p => p.1.1 == s.next) = false) :
@@ -610,7 +1318,10 @@ theorem dangling_is_null {G : Graph} {s : St} {r : Ref} (f : Nat)
       { trans := (r, refOf s.next) :: s.trans, next := s.next + 1,
         puts := s.puts ++ [(refOf s.next, .obj .null)] }) := by
   have h1 : ¬ (s.next ≥ Gen.cpy_maxXRefSize) := by omega
-  simp [copyRef, hnew, alloc, h1, hnull, copyVal, copyObj, put, hfree, refOf]
+  have hw : walkFrom G s.trans r = .ends (.obj .null) [r] := by
+    unfold walkFrom walkChain
+    simp [CPY.get, hmiss]
+  simp [copyRef, hnew, hw, alloc, h1, copyVal, copyObj, put, hfree, refOf, enter]
 
 theorem depth_eq : Gen.cpy_MaxExtractDepth = (Gen.cpy_MaxExtractDepth - 2) + 1 + 1 := by decide
 
@@ -698,24 +1409,20 @@ theorem mapVal_refs {tr : List (Ref × Ref)} {sp v : Val} (h : mapVal tr sp = so
     · next d' hd => exact mapKV_refs d d' hd
     · cases h
 
-theorem snd_nodup_inj (N : List (Ref × Ref)) (hvn : (N.map Prod.snd).Nodup) {a b t : Ref}
-    (h1 : (a, t) ∈ N) (h2 : (b, t) ∈ N) : a = b := by
-  induction N with
-  | nil => simp at h1
-  | cons q N ih =>
-    simp only [List.map_cons, List.nodup_cons] at hvn
-    rcases List.mem_cons.mp h1 with e1 | e1 <;> rcases List.mem_cons.mp h2 with e2 | e2
-    · rw [← e1] at e2; exact ((Prod.mk.inj e2).1).symm
-    · exfalso; apply hvn.1; rw [← e1]; exact List.mem_map.mpr ⟨_, e2, rfl⟩
-    · exfalso; apply hvn.1; rw [← e2]; exact List.mem_map.mpr ⟨_, e1, rfl⟩
-    · exact ih hvn.2 e1 e2
+
+/-- a source reference is exempt from the consistency claim if the caller redirected it, or if
+    it is an alias (a chain of references) of a redirected reference -/
+def Exempt (G : Graph) (Rd : List Ref) (src : Ref) : Prop := src ∈ Rd ∨ ∃ x ∈ Rd, Leads G src x
+
+theorem not_exempt_nil (G : Graph) (src : Ref) : ¬ Exempt G [] src := by
+  rintro (h | ⟨x, h, _⟩) <;> simp at h
 
 /-- The copier state is consistent: the objects written have distinct numbers below `next`,
-    and every translated source reference (except the redirected ones `Rd`) has its object
-    written, which is the image of the source object under the current translation. -/
+    and every translated source reference (except the redirected ones `Rd` and their aliases) has
+    its object written, which is the image of the source object under the current translation. -/
 def Consistent (G : Graph) (Rd : List Ref) (s : St) : Prop :=
   (s.puts.map Prod.fst).Nodup ∧ (∀ k ∈ s.puts.map Prod.fst, k.1 < s.next) ∧
-  ∀ src t, (src, t) ∈ s.trans → src ∉ Rd →
+  ∀ src t, (src, t) ∈ s.trans → ¬ Exempt G Rd src →
     ∃ v, assoc t s.puts = some v ∧ Image s.trans G src v
 
 def St.init (n0 : Nat) : St := { trans := [], next := n0, puts := [] }
@@ -723,21 +1430,19 @@ def St.init (n0 : Nat) : St := { trans := [], next := n0, puts := [] }
 theorem init_consistent (G : Graph) (n0 : Nat) : Consistent G [] (St.init n0) := by
   simp [Consistent, St.init]
 
-theorem Eff.consistent {G : Graph} {Rd : List Ref} {s s' : St} (hc : Consistent G Rd s)
-    (h : Eff G s s') : Consistent G Rd s' := by
+theorem Eff.consistent' {G : Graph} (hL : LinkInv G) {Rd : List Ref} {s s' : St}
+    (hc : Consistent G Rd s) (h : Eff G s s') (hal : AliasOK G s s') : Consistent G Rd s' := by
   obtain ⟨c1, c2, c3⟩ := hc
   have hext := h.extends
-  obtain ⟨N, P, a, b, c, d, e, f, g, i⟩ := h
-  have hperm : (P.map Prod.fst).Perm ((List.range' s.next N.length).map refOf) :=
-    g.trans (by rw [f]; exact List.reverse_perm _)
-  have hPnodup : (P.map Prod.fst).Nodup := (List.Perm.nodup_iff hperm).mpr (range_refs_nodup _ _)
+  obtain ⟨N, P, a, ha, hb, hcn, hd, he, hf, hg, hi⟩ := h
+  have hPnodup : (P.map Prod.fst).Nodup := (List.Perm.nodup_iff hg).mpr (range_refs_nodup _ _)
   have hPmem : ∀ k ∈ P.map Prod.fst, s.next ≤ k.1 ∧ k.1 < s'.next := by
     intro k hk
-    obtain ⟨n, hn, rfl⟩ := List.mem_map.mp (hperm.mem_iff.mp hk)
-    have := List.mem_range'_1.mp hn
+    obtain ⟨m, hm, rfl⟩ := List.mem_map.mp (hg.mem_iff.mp hk)
+    have := List.mem_range'_1.mp hm
     simp only [refOf]; omega
   refine ⟨?_, ?_, ?_⟩
-  · rw [b, List.map_append, List.nodup_append]
+  · rw [hb, List.map_append, List.nodup_append]
     refine ⟨c1, hPnodup, ?_⟩
     intro x hx y hy hxy
     subst hxy
@@ -745,69 +1450,91 @@ theorem Eff.consistent {G : Graph} {Rd : List Ref} {s s' : St} (hc : Consistent 
     have := hPmem x hy
     omega
   · intro k hk
-    rw [b, List.map_append, List.mem_append] at hk
+    rw [hb, List.map_append, List.mem_append] at hk
     rcases hk with hk | hk
     · have := c2 k hk; omega
     · exact (hPmem k hk).2
   · intro src t hm hr
-    rw [a, List.mem_append] at hm
-    rcases hm with hm | hm
-    · -- a new entry: its object is among the objects written by this call
-      have ht : t ∈ P.map Prod.fst := by
-        apply g.mem_iff.mpr
-        exact List.mem_map.mpr ⟨(src, t), hm, rfl⟩
-      obtain ⟨p, hp, hpt⟩ := List.mem_map.mp ht
-      obtain ⟨src', hm', him⟩ := i p hp
-      have hsrc : src' = src := by
-        -- the targets of the new entries are pairwise distinct
-        have hvn : (N.map Prod.snd).Nodup := by
-          rw [f]; exact ((List.reverse_perm _).nodup_iff).mpr (range_refs_nodup _ _)
-        rw [hpt] at hm'
-        exact snd_nodup_inj N hvn hm' hm
-      subst hsrc
-      refine ⟨p.2, ?_, him⟩
-      rw [b, assoc_append]
-      have hnone : assoc t s.puts = none := by
-        rw [assoc_none_iff]
-        intro hin
-        have := c2 t hin
-        have := hPmem t ht
-        omega
-      rw [hnone]
-      apply assoc_of_mem_nodup _ _ _ hPnodup
-      rw [← hpt]; exact hp
-    · obtain ⟨v, hv, him⟩ := c3 src t hm hr
-      refine ⟨v, ?_, Image_stable hext G src v him⟩
-      rw [b, assoc_append, hv]
+    -- an entry that was there before
+    have old : ∀ src, (src, t) ∈ s.trans → ¬ Exempt G Rd src → ∃ v, assoc t s'.puts = some v ∧ Image s.trans G src v := by
+      intro src hm hr
+      obtain ⟨v, hv, him⟩ := c3 src t hm hr
+      exact ⟨v, by rw [hb, assoc_append, hv], him⟩
+    cases hn : assoc src s.trans with
+    | some t0 =>
+      have hm' : (src, t) ∈ s.trans := by
+        rw [ha, List.mem_append] at hm
+        rcases hm with h | h
+        · have := hd src (List.mem_map.mpr ⟨(src, t), h, rfl⟩)
+          rw [hn] at this; cases this
+        · exact h
+      obtain ⟨v, hv, him⟩ := old src hm' hr
+      exact ⟨v, hv, Image_stable hext G src v him⟩
+    | none =>
+      rcases hal src t hm hn with ⟨v, hv, him⟩ | ⟨x, hx, hl⟩
+      · -- written during this call, or before
+        refine ⟨v, ?_, him⟩
+        rw [hb, List.mem_append] at hv
+        rcases hv with hv | hv
+        · have hnd : ((s.puts ++ P).map Prod.fst).Nodup := by
+            rw [List.map_append, List.nodup_append]
+            refine ⟨c1, hPnodup, ?_⟩
+            intro x hx y hy hxy
+            subst hxy
+            have := c2 x hx
+            have := hPmem x hy
+            omega
+          rw [hb]
+          exact assoc_of_mem_nodup _ _ _ hnd (List.mem_append_left _ hv)
+        · have hnd : ((s.puts ++ P).map Prod.fst).Nodup := by
+            rw [List.map_append, List.nodup_append]
+            refine ⟨c1, hPnodup, ?_⟩
+            intro x hx y hy hxy
+            subst hxy
+            have := c2 x hx
+            have := hPmem x hy
+            omega
+          rw [hb]
+          exact assoc_of_mem_nodup _ _ _ hnd (List.mem_append_right _ hv)
+      · -- an alias of a reference translated before: covered like that one
+        have hxr : ¬ Exempt G Rd x := by
+          rintro (hx' | ⟨y, hy, hly⟩)
+          · exact hr (Or.inr ⟨x, hx', hl⟩)
+          · exact hr (Or.inr ⟨y, hy, hl.trans hly⟩)
+        obtain ⟨v, hv, him⟩ := old x (assoc_some_mem _ _ _ hx) hxr
+        exact ⟨v, hv, Image_of_leads hL hl (Image_stable hext G x v him)⟩
+
+/-- `CopyReference` keeps the state consistent -/
+theorem copyRef_consistent {G : Graph} (hL : LinkInv G) {Rd : List Ref}
+    {f : Nat} {s s' : St} {r t : Ref} (hc : Consistent G Rd s) (h : copyRef f G s r = .ok (t, s')) :
+    Consistent G Rd s' :=
+  Eff.consistent' hL hc (copyRef_effect h).1 ((alias_main G hL f).2.2.2.2.2.2 s r t s' h)
 
 /-- **copy_iso.**  From a consistent copier state (in particular a new `Copier`), after a
 successful `CopyReference(r)`: every source reference `b` reachable from `r` — through arrays,
 dictionaries, stream dictionaries, chains of references and around cycles — has a translation
 `t'`, the object `t'` has been written, and it is the image under the final translation of what
 `b` resolves to (chain shortened; dictionaries in key order; /Filter and /DecodeParms inlined;
-stream bytes unchanged). -/
-theorem copy_iso {G : Graph} {f : Nat} {s s' : St} {r t : Ref}
+stream bytes unchanged).  (`LinkInv`: no chain of references longer than `MaxExtractDepth`.) -/
+theorem copy_iso {G : Graph} (hL : LinkInv G) {f : Nat} {s s' : St} {r t : Ref}
     (hc : Consistent G [] s) (h : copyRef f G s r = .ok (t, s')) :
     ∀ b, Reach G r b →
       ∃ t' v, assoc b s'.trans = some t' ∧ assoc t' s'.puts = some v ∧ Image s'.trans G b v := by
   obtain ⟨e, hr⟩ := copyRef_effect h
-  have hc' := e.consistent hc
+  have hc' := copyRef_consistent hL hc h
   intro b hb
   induction hb with
   | root =>
-    obtain ⟨v, hv, him⟩ := hc'.2.2 r t (assoc_some_mem _ _ _ hr) (by simp)
+    obtain ⟨v, hv, him⟩ := hc'.2.2 r t (assoc_some_mem _ _ _ hr) (not_exempt_nil G r)
     exact ⟨t, v, hr, hv, him⟩
   | @step a b _ hmem ih =>
     obtain ⟨ta, va, _, _, sv, sp, h1, h2, h3⟩ := ih
     have hb : b ∈ valRefs sp := by
       simpa [specRefs, h1, h2] using hmem
     obtain ⟨tb, htb⟩ := mapVal_refs h3 b hb
-    obtain ⟨v, hv, him⟩ := hc'.2.2 b tb (assoc_some_mem _ _ _ htb) (by simp)
+    obtain ⟨v, hv, him⟩ := hc'.2.2 b tb (assoc_some_mem _ _ _ htb) (not_exempt_nil G b)
     exact ⟨tb, v, htb, hv, him⟩
 
-
-/-- **stream_bytes_preserved.**  Whatever the crypt recipe (`cryptNone`, `cryptDefault`,
-`cryptIdentity`), the image of a source stream is a stream with the same (decrypted) bytes. -/
 theorem stream_bytes_preserved {tr : List (Ref × Ref)} {G : Graph} {b : Ref} {v : Val}
     {dict : KV} {data : Bytes} {enc : Bool}
     (hres : resolveOrNull G b = .ok (.stream dict data enc)) (him : Image tr G b v) :
@@ -963,12 +1690,10 @@ def Fine {α : Type} (x : Except CErr α) : Prop := (∃ a, x = .ok a) ∨ x = .
 theorem Eff.new_keys {G : Graph} {s s' : St} (h : Eff G s s') :
     ∃ P : List (Ref × Val), s'.puts = s.puts ++ P ∧
       ∀ k ∈ P.map Prod.fst, ∃ m, k = refOf m ∧ s.next ≤ m ∧ m < s'.next := by
-  obtain ⟨N, P, a, b, c, d, e, f, g, i⟩ := h
+  obtain ⟨N, P, a, _, b, c, _, _, _, g, _⟩ := h
   refine ⟨P, b, ?_⟩
   intro k hk
-  have hperm : (P.map Prod.fst).Perm ((List.range' s.next N.length).map refOf) :=
-    g.trans (by rw [f]; exact List.reverse_perm _)
-  obtain ⟨m, hm, rfl⟩ := List.mem_map.mp (hperm.mem_iff.mp hk)
+  obtain ⟨m, hm, rfl⟩ := List.mem_map.mp (g.mem_iff.mp hk)
   have := List.mem_range'_1.mp hm
   exact ⟨m, rfl, by omega, by omega⟩
 
